@@ -202,7 +202,9 @@ func (db *GoBadgerDB) Iterator(start, end []byte, reverse bool) Iterator {
 	} else {
 		it.Seek(start)
 	}
-	return &goBadgerDBIt{it, itBase{start, end, reverse}, txn, nil}
+	bit := &goBadgerDBIt{it, itBase{start, end, reverse}, txn, nil}
+	bit.skipEnd()
+	return bit
 }
 
 type goBadgerDBIt struct {
@@ -221,7 +223,8 @@ func (it *goBadgerDBIt) Next() bool {
 // Rewind ...
 func (it *goBadgerDBIt) Rewind() bool {
 	if it.reverse {
-		it.Seek(it.end)
+		it.Iterator.Seek(it.end)
+		it.skipEnd()
 	} else {
 		it.Seek(it.start)
 	}
@@ -230,8 +233,23 @@ func (it *goBadgerDBIt) Rewind() bool {
 
 // Seek 查找
 func (it *goBadgerDBIt) Seek(key []byte) bool {
+	// keep the target inside [start, end), as the ranged leveldb iterator does
+	if !it.reverse && it.start != nil && bytes.Compare(key, it.start) < 0 {
+		key = it.start
+	}
+	if it.reverse && it.end != nil && bytes.Compare(key, it.end) > 0 {
+		key = it.end
+	}
 	it.Iterator.Seek(key)
+	it.skipEnd()
 	return it.Valid()
+}
+
+// skipEnd steps a reverse iterator off the key equal to the exclusive end of the range
+func (it *goBadgerDBIt) skipEnd() {
+	if it.reverse && it.end != nil && it.Iterator.Valid() && bytes.Equal(it.Key(), it.end) {
+		it.Iterator.Next()
+	}
 }
 
 // Close 关闭
@@ -242,7 +260,8 @@ func (it *goBadgerDBIt) Close() {
 
 // Valid 是否合法
 func (it *goBadgerDBIt) Valid() bool {
-	return it.Iterator.Valid() && it.checkKey(it.Key())
+	// end is exclusive, as for the leveldb and memory backends
+	return it.Iterator.Valid() && it.checkKey(it.Key()) && !(it.end != nil && bytes.Equal(it.Key(), it.end))
 }
 
 func (it *goBadgerDBIt) Key() []byte {
